@@ -115,6 +115,7 @@ Inductive obs :=
 | OFoldR (f : fun2) (init : Z)
 | OFilter (p : obs) | OAny (p : obs) | OAll (p : obs) | OElem (z : Z)
 | OReverse | OFlatten
+| OSort                                   (* std.array.sort with the usual comparison of numbers *)
 | OSeq | ODeepSeq | OSerde
 | OEqR (l : lit) | OEqL (l : lit)
 | OCtr (c : ctr)                          (* x | c *)
@@ -531,6 +532,35 @@ Section Sem.
         end))
     end.
 
+  (** std.array.sort (quicksort on [first = at 0], [rest = slice 1 length], [partition]) with
+      [cmp = fun x y => if x < y then 'Lesser else if x == y then 'Equal else 'Greater]:
+      [partition] is a strict fold_left whose predicate [cmp x first == 'Lesser] evaluates [x],
+      then [first]; an array of length <= 1 is returned as it is, nothing evaluated. *)
+  Fixpoint partition_go (first : thunk) (xs : list thunk) (rgt wrg : list thunk)
+    : res (list thunk * list thunk) :=
+    match xs with
+    | [] => Ok (rgt, wrg)
+    | x :: xs' =>
+        bind (ev x) (fun vx => bind (as_num vx) (fun a =>
+        bind (ev first) (fun vf => bind (as_num vf) (fun b =>
+        if Z.ltb a b then partition_go first xs' (rgt ++ [x]) wrg
+        else partition_go first xs' rgt (wrg ++ [x])))))
+    end.
+
+  Fixpoint sort_go (fuel : nat) (elems : list thunk) : res (list thunk) :=
+    match elems with
+    | [] => Ok []
+    | [x] => Ok [x]
+    | first :: rest =>
+        match fuel with
+        | 0 => Err EFuel
+        | S fuel' =>
+            bind (partition_go first rest [] []) (fun '(rgt, wrg) =>
+            bind (sort_go fuel' rgt) (fun sr =>
+            bind (sort_go fuel' wrg) (fun sw => Ok (sr ++ first :: sw))))
+        end
+    end.
+
   (** Equality of a list of pairs, in the given order, stopping at the first difference. *)
   Fixpoint eq_pairs (ps : list (thunk * thunk)) : res lval :=
     match ps with
@@ -673,6 +703,12 @@ Section Sem.
     | OFlatten =>
         bind (ev t) (fun v => bind (as_arr EBlameNeg v) (fun '(es, p) =>
         flatten_go (arr_elems es p) [] []))
+    | OSort =>
+        bind (ev t) (fun v => bind (as_arr EBlameNeg v) (fun '(es, p) =>
+        match es with
+        | [] | [_] => Ok (VArr es p)
+        | _ => bind (sort_go (List.length es) (arr_elems es p)) (fun r => Ok (VArr r []))
+        end))
     | OSeq => ev t
     | ODeepSeq => bind (fo t) (fun _ => ev t)
     | OSerde =>
